@@ -8,6 +8,8 @@ line numbers.
 import re
 from .. import client as C
 from ..shared import segments
+from .exprs import show
+CLIENT = C.CLIENT
 
 CLASSES = ("Request", "Indication", "SuccessResponse", "ErrorResponse")
 T_TABLE = ("client", "transactions")
@@ -775,3 +777,48 @@ def r5_4_who_may_write(ctx, prog, rule="R5.4"):
         ctx.ob(rule, "table-method:%s" % m, m in exp and fns <= exp[m],
                "transactions.%s called in %s (allowed: %s)" % (m, sorted(fns), sorted(exp.get(m, []))))
     ctx.floor(rule, "table mutators found", len(calls), 3)
+
+
+def r12_5_limit_passthrough(ctx, prog, rule="R12.5"):
+    ctx.rule(rule, "the configured limit is the limit: with_max_transactions stores its argument unchanged and leaves every other "
+                   "setting alone; the builder starts from the default 10; build hands the parameters to StunClient::new, "
+                   "which copies params.max_transactions into the client on every Ok path")
+    B = "stun_agent::client::StunClienteBuilder"
+    adt = prog.adt("stun_agent::client::StunClientParameters")
+    names = [f["name"] for f in adt["variants"][0]["fields"]]
+    if "max_transactions" not in names:
+        ctx.anchor_missing(rule, "StunClientParameters.max_transactions")
+        return
+    ix = names.index("max_transactions")
+    paths, info = C.explore_fn(prog, B + "::with_max_transactions", "b", [r"\{closure"])
+    ctx.fn(info["body"])
+    for pa in paths:
+        r = C.expr_of(pa, pa.ret)
+        ok = isinstance(r, tuple) and r[0] == "StunClienteBuilder" and isinstance(r[1], tuple) and len(r[1]) == len(names) + 1
+        if ok:
+            p = r[1][1:]
+            ok = p[ix] == "top:max_transactions" and all(str(p[i]).endswith("b.0.%s" % names[i]) for i in range(len(names)) if i != ix)
+        ctx.ob(rule, "setter", ok and not pa.calls, "with_max_transactions(n) -> %s; calls %s" % (show(r)[:200], pa.call_names()), info["where"],
+               replay=None if ok else pa.describe())
+    ctx.floor(rule, "setter paths", len(paths), 1)
+    paths, info = C.explore_fn(prog, B + "::new", "b", [r"\{closure"])
+    for pa in paths:
+        r = C.expr_of(pa, pa.ret)
+        ok = isinstance(r, tuple) and isinstance(r[1], tuple) and len(r[1]) == len(names) + 1 and r[1][1 + ix] == 10
+        ctx.ob(rule, "default", ok, "builder default: max_transactions = %s" % (r[1][1 + ix] if isinstance(r, tuple) and isinstance(r[1], tuple) and len(r[1]) > ix + 1 else "?"), info["where"])
+    paths, info = C.explore_fn(prog, B + "::build", "b", [r"\{closure"])
+    for pa in paths:
+        r = C.expr_of(pa, pa.ret)
+        ctx.ob(rule, "build", r == ("StunClient::new", "top:b.0"), "build() = %s" % show(r)[:120], info["where"])
+    paths, info = C.explore_fn(prog, CLIENT + "::new", "c", [r"\{closure"])
+    ctx.fn(info["body"])
+    cadt = prog.adt(CLIENT)
+    cn = [f["name"] for f in cadt["variants"][0]["fields"]]
+    vals = set()
+    n = 0
+    for pa in paths:
+        r = C.expr_of(pa, pa.ret)
+        if isinstance(r, tuple) and r[0] == "Result::Ok" and isinstance(r[1], tuple) and len(r[1]) == len(cn) + 1:
+            n += 1
+            vals.add(str(r[1][1 + cn.index("max_transactions")]))
+    ctx.ob(rule, "constructor", n >= 1 and vals == {"top:params.max_transactions"}, "StunClient::new: max_transactions = %s on %d Ok path(s)" % (sorted(vals), n), info["where"])
